@@ -4,41 +4,47 @@ to /repo, runs the pinned suite with the guard off and the named checks, and rev
 usage: run_mutants.py [--seeded] [--all-checks] [name ...]"""
 import subprocess, json, os, sys, time, glob
 def sh(cmd, **k): return subprocess.run(cmd, shell=True, capture_output=True, text=True, **k)
+REPO = os.environ.get("MUT_REPO", "/repo")
+VERIF = os.environ.get("MUT_VERIF", "/verif")
+ISGIT = os.path.exists(os.path.join(REPO, ".git"))
+def revert(patch=None):
+    if ISGIT: sh("git -C %s checkout -- ." % REPO)
+    elif patch: sh("cd %s && git apply -R %s" % (REPO, patch))
 args = [a for a in sys.argv[1:] if not a.startswith("--")]
 seeded = "--seeded" in sys.argv
 allchecks = "--all-checks" in sys.argv
 nosuite = "--no-suite" in sys.argv
-ALL = [c["property_id"] for c in json.load(open("/verif/MANIFEST.json"))["checks"]]
+ALL = [c["property_id"] for c in json.load(open(os.path.join(VERIF, "MANIFEST.json")))["checks"]]
 items = []
 if seeded:
-    for d in sorted(glob.glob("/verif/seeded/*/")):
+    for d in sorted(glob.glob(os.path.join(VERIF, "seeded/*/"))):
         name = os.path.basename(d.rstrip("/"))
         meta = json.load(open(d + "meta.json"))
         items.append((name, d + "patch.diff", meta.get("breaks", []) if isinstance(meta.get("breaks"), list) else [meta.get("breaks")]))
 else:
-    meta = json.load(open("/verif/mutants/mutants.json"))
+    meta = json.load(open(os.path.join(VERIF, "mutants/mutants.json")))
     for name, mm in meta.items():
-        items.append((name, "/verif/mutants/%s.diff" % name, mm["expected_catchers"]))
+        items.append((name, os.path.join(VERIF, "mutants/%s.diff" % name), mm["expected_catchers"]))
 if args:
     items = [i for i in items if i[0] in args]
-assert sh("git -C /repo status --porcelain").stdout.strip() == "", "/repo is dirty"
+assert (not ISGIT) or sh("git -C %s status --porcelain" % REPO).stdout.strip() == "", "repo is dirty"
 results = {}
 try:
     for name, patch, props in items:
         r = {"suite": None, "checks": {}}
-        a = sh("git -C /repo apply %s" % patch)
+        a = sh("cd %s && git apply %s" % (REPO, patch))
         if a.returncode != 0:
             r["error"] = "patch does not apply: " + a.stderr[:200]; results[name] = r; print(name, r["error"]); continue
-        b = sh("cd /repo && cargo build --offline 2>&1 | tail -3")
+        b = sh("cd %s && cargo build --offline 2>&1 | tail -3" % REPO)
         if "error" in b.stdout:
-            r["error"] = "does not compile guard-off"; results[name] = r; print(name, r["error"]); sh("git -C /repo checkout -- ."); continue
+            r["error"] = "does not compile guard-off"; results[name] = r; print(name, r["error"]); revert(patch); continue
         if not nosuite:
-            t = sh("cd /repo && timeout 90 cargo test --offline 2>&1 | grep -E '^test result' ")
+            t = sh("cd " + REPO + " && timeout 90 cargo test --offline 2>&1 | grep -E '^test result' ")
             r["suite"] = "pass" if (t.stdout.count("test result") >= 3 and "failed" in t.stdout and all(" 0 failed" in l for l in t.stdout.splitlines())) else "FAIL"
         for p in (ALL if allchecks else props):
             if p not in ALL: continue
             t0 = time.time()
-            c = sh("cd /verif && timeout 900 bin/check %s quick" % p)
+            c = sh("cd %s && VERIF_REPO=%s timeout 900 bin/check %s quick" % (VERIF, REPO, p))
             sigs = [l.strip().split("signature=")[1].split()[0] for l in c.stdout.splitlines() if "signature=" in l]
             r["checks"][p] = {"exit": c.returncode, "sigs": sigs[:4], "s": round(time.time() - t0, 1)}
         caught = [p for p, x in r["checks"].items() if x["exit"] == 1]
@@ -46,10 +52,10 @@ try:
         results[name] = r
         print("%-45s suite=%-5s caught_by=%s %s" % (name, r["suite"], caught, {p: (x["exit"], x["sigs"][:1]) for p, x in r["checks"].items() if x["exit"] != 1}))
         sys.stdout.flush()
-        sh("git -C /repo checkout -- .")
+        revert(patch)
 finally:
-    sh("git -C /repo checkout -- .")
-out = "/verif/seeded/results.json" if seeded else "/verif/mutants/results.json"
+    if ISGIT: revert()
+out = os.environ.get("MUT_OUT", "/verif/seeded/results.json" if seeded else "/verif/mutants/results.json")
 old = {}
 if os.path.exists(out):
     old = json.load(open(out))
